@@ -9,7 +9,7 @@ Confirms a seeded change produced by an independent sub-agent and runs our check
   5. runs `bin/vcheck <check> --no-evidence` with VERIF_REPO=<patched copy> for every listed check
   6. records everything under "confirmation" in meta.json, removes the scratch copies.
 """
-import json, os, re, shutil, subprocess, sys, tempfile, time
+import json, os, re, shlex, shutil, subprocess, sys, tempfile, time
 
 def sh(cmd, cwd=None, env=None, timeout=1800):
     e = dict(os.environ)
@@ -21,6 +21,10 @@ def sh(cmd, cwd=None, env=None, timeout=1800):
         return p.returncode, p.stdout
     except subprocess.TimeoutExpired as ex:
         return 124, (ex.stdout or "") + "\nTIMEOUT"
+
+def netns(cmd):
+    """existing tests use fixed ports (ZMQ 39000, …): give each run its own loopback"""
+    return "unshare -n sh -c " + shlex.quote("ip link set lo up; " + cmd)
 
 def main():
     prop, var = sys.argv[1], sys.argv[2]
@@ -42,6 +46,7 @@ def main():
     except Exception as ex:
         meta = {"property": prop, "variant": var, "meta_error": str(ex)}
     patch = os.path.join(dst, "patch.diff")
+    previous = meta.get("confirmation")
     conf = {"at_repo_commit": subprocess.check_output("git -C /repo rev-parse --short HEAD", shell=True, text=True).strip(), "when": time.strftime("%Y-%m-%d %H:%M:%S")}
     base = tempfile.mkdtemp(prefix=f"seedeval-{prop}{var}-", dir="/tmp")
     clean, mut = os.path.join(base, "clean"), os.path.join(base, "mut")
@@ -81,13 +86,13 @@ def main():
         pkgs = sorted({"./" + os.path.dirname(f) for f in touched if f.endswith(".go") and not f.startswith("cmd/")})
         tests = {}
         if pkgs:
-            rc, out = sh("go test -vet=off -count=1 " + " ".join(pkgs) + " 2>&1 | grep -E '^(ok|FAIL|---|panic)' | head -30", cwd=mut, timeout=1500)
+            rc, out = sh(netns("go test -vet=off -count=1 " + " ".join(pkgs) + " 2>&1 | grep -E '^(ok|FAIL|---|panic)' | head -30"), cwd=mut, timeout=1500)
             tests["root:" + " ".join(pkgs)] = out.strip()
         if "cmd/application" in mods:
-            rc, out = sh("go test -vet=off -count=1 . 2>&1 | grep -E '^(ok|FAIL|---|panic)' | head", cwd=os.path.join(mut, "cmd/application"), timeout=900)
+            rc, out = sh(netns("go test -vet=off -count=1 . 2>&1 | grep -E '^(ok|FAIL|---|panic)' | head"), cwd=os.path.join(mut, "cmd/application"), timeout=900)
             tests["cmd/application"] = out.strip()
         if any(f.endswith(".go") and (f.startswith("pkg/transports") or f.startswith("pkg/station/lib")) for f in touched):
-            rc, out = sh("go test -vet=off -count=1 ./internal/... 2>&1 | grep -E '^(ok|FAIL|---|panic)' | head", cwd=mut, timeout=900)
+            rc, out = sh(netns("go test -vet=off -count=1 ./internal/... 2>&1 | grep -E '^(ok|FAIL|---|panic)' | head"), cwd=mut, timeout=900)
             tests["internal"] = out.strip()
         # fixed-port tests (ZMQ 39000, …) collide with other users of the machine: re-run a failing group once
         def run_group(key):
@@ -113,6 +118,7 @@ def main():
             readme = open(os.path.join(demo_dir, "README.txt")).read()
         conf["demo_readme"] = readme[:1500]
         cmd = meta.get("demo_command", "")
+        cmd = re.sub(r"\s+\([^()]*\)\s*$", "", cmd)  # a trailing remark in parentheses is not part of the command
         def install(root):
             n = 0
             for fn in os.listdir(demo_dir):
@@ -175,6 +181,10 @@ def main():
         pass
     finally:
         shutil.rmtree(base, ignore_errors=True)
+    if previous and previous.get("patch_applies") and not conf.get("patch_applies"):
+        # later fix: commits moved the anchor; the earlier confirmation (at previous["at_repo_commit"]) stands
+        previous["recheck"] = {"at_repo_commit": conf["at_repo_commit"], "when": conf["when"], "result": "patch no longer applies to HEAD", "patch_error": conf.get("patch_error", "")[-400:]}
+        conf = previous
     meta["confirmation"] = conf
     json.dump(meta, open(meta_path, "w"), indent=1)
     brief = {k: conf.get(k) for k in ("patch_applies", "builds", "existing_tests_pass", "demo_passes_without_change", "demo_fails_with_change", "detected_by")}
